@@ -132,7 +132,9 @@ def with_timeout(seconds: float, fn, *a, **kw):
 
 def write_evidence(prop: str, tier: str, seed: int, t0: float, coverage: dict, assumptions: list[str],
                    violations: int, level: str = "exploration") -> str:
-    os.makedirs(os.path.join(env.VERIF, "evidence"), exist_ok=True)
+    # evidence describes /repo itself; a run against a patched scratch copy (VERIF_REPO) writes elsewhere
+    evdir = os.path.join(env.VERIF, "evidence") if env.REPO == "/repo" else os.path.join(env.VERIF, ".work", "evidence-scratch")
+    os.makedirs(evdir, exist_ok=True)
     ev = {
         "property_id": prop,
         "tier": tier,
@@ -150,7 +152,7 @@ def write_evidence(prop: str, tier: str, seed: int, t0: float, coverage: dict, a
             raise HarnessError(f"evidence coverage lacks {k}")
     if not isinstance(c["samples"], list) or not c["samples"]:
         raise HarnessError("evidence has no samples")
-    path = os.path.join(env.VERIF, "evidence", f"{prop}.json")
+    path = os.path.join(evdir, f"{prop}.json")
     tmp = path + ".tmp"
     with open(tmp, "w", encoding="utf-8") as f:
         json.dump(ev, f, indent=1, ensure_ascii=True, default=repr)
